@@ -55,7 +55,8 @@ def floors(tier):
     k = 1 if tier == "quick" else 20
     return {"runs": 400 * k, "decided:resumes": 300 * k, "decided:warm_starts": 150 * k, "decided:deletes_before_end": 500 * k,
             "early_removals": 100 * k, "runs:delete_checkpoints": 200 * k, "runs:no_delete": 80 * k,
-            "decided:sync_paused_deletes": 50 * k, "runs:early_removal_requested": 60 * k}
+            "decided:sync_paused_deletes": 50 * k, "runs:early_removal_requested": 60 * k,
+            "decided:pbt_clone_source_choices": 100 * k, "runs:nan_reporting_trials": 25 * k, "decided:resumes_of_nan_trials": 10 * k}
 
 
 def expand(spec):
@@ -71,6 +72,7 @@ def expand(spec):
          "space": gen.small_space(rng, ensure_infinite=True, ordinal_kinds=("equal",)), "curves": rng.choice(["continuous", "crossing"])}
     if simrun.pause_capable(kind) and not use_mra:
         p["plan"]["burst"] = 1
+    p["nan_frac"] = rng.choice([0.5, 0.7, 0.85]) if kind == "sync_hb" and rng.random() < 0.4 else 0
     p["early"] = None
     if kind.startswith("hb_") and p["delete_checkpoints"] and rng.random() < 0.45:
         p["early"] = {"max_num_checkpoints": rng.randint(1, 4), "max_wallclock_time": 1000}
@@ -94,7 +96,34 @@ def run_case(spec):
         o.count("runs:early_removal_requested")
     if kind == "dehb":
         pass
-    r = simrun.ProcRun(p, spec["seed"], sched_extra=sched_extra)
+    value_fn = None
+    if p.get("nan_frac"):
+        # diverged trainings: some trials report NaN at every level (synchronous Hyperband counts them as failed and,
+        # short of valid results, still promotes them)
+        base = gen.Curves(p.get("curves", "continuous"), spec["seed"] + 1, p["max_t"])
+        nan_rng_seed = spec["seed"] * 31 + 7
+
+        def value_fn(trial_id, level, cfg, _b=base, _f=p["nan_frac"]):
+            if random.Random(nan_rng_seed + trial_id * 7919).random() < _f:
+                return float("nan")
+            return _b(trial_id, level, cfg)
+
+        o.count("runs:nan_reporting_trials")
+    r = simrun.ProcRun(p, spec["seed"], sched_extra=sched_extra, value_fn=value_fn)
+    if kind == "pbt" and hasattr(r.scheduler, "_trial_decisions_stack"):
+        # read-only probe: which clone decisions are pending after each result (tells "source chosen while its
+        # checkpoint still existed, deleted before the clone started" (C20-K1) from "source chosen after deletion")
+        inner = r.scheduler.on_trial_result
+
+        def probed(*a, **k):
+            ret = inner(*a, **k)
+            try:
+                r.rec.ev("p.pbt_pending", srcs=[int(e[0]) for e in r.scheduler._trial_decisions_stack])
+            except Exception:  # noqa: BLE001
+                pass
+            return ret
+
+        r.scheduler.on_trial_result = probed
     r.run()
     if r.exc is not None:
         msg = repr(r.exc)[:300]
@@ -131,6 +160,8 @@ def run_case(spec):
 
     n_res = n_warm = n_del = 0
     expect_copy, copied = None, False
+    shadow = []          # pending clone decisions: (source, "its checkpoint existed when it was chosen")
+    popped = None
     for idx, k, pl in events:
         if k == "c.tuning_end":
             tuning_ended = True
@@ -138,10 +169,21 @@ def run_case(spec):
             if not pl["late"]:
                 has_ck[pl["trial"]] = True
                 ever_ck.add(pl["trial"])
+        elif k == "p.pbt_pending":
+            srcs = pl["srcs"]
+            if len(srcs) == len(shadow) + 1 and srcs[:-1] == [x[0] for x in shadow]:
+                src = srcs[-1]
+                shadow.append((src, has_ck.get(src, False) or src not in ever_ck))
+                o.count("decided:pbt_clone_source_choices")
+            elif srcs != [x[0] for x in shadow]:
+                shadow = [(x, None) for x in srcs]  # probe out of step: no claim about these entries
         elif k == "s.suggest.ret":
             rr = pl["ret"]
             expect_copy = rr["ckpt"] if (rr is not None and rr["spawn"] and rr["ckpt"] is not None) else None
             copied = False
+            popped = None
+            if expect_copy is not None and shadow and shadow[-1][0] == expect_copy:
+                popped = shadow.pop()
         elif k == "b.start_trial.ret":
             state[pl["ret"]["trial_id"]] = "running"
             if expect_copy is not None and not copied:
@@ -155,7 +197,10 @@ def run_case(spec):
             n_warm += 1
             sig.append(("copy", state.get(src)))
             if src in ever_ck and not has_ck.get(src, False):
-                V("checkpoint_exists_at_warm_start", "warm_start_from_deleted_checkpoint", src=src, tgt=tgt, src_state=state.get(src))
+                if popped is not None and popped[0] == src and popped[1] is False:
+                    V("checkpoint_exists_at_warm_start", "clone_source_chosen_after_its_checkpoint_was_deleted", src=src, tgt=tgt, src_state=state.get(src))
+                else:
+                    V("checkpoint_exists_at_warm_start", "warm_start_from_deleted_checkpoint", src=src, tgt=tgt, src_state=state.get(src))
         elif k == "b.copy_checkpoint.ret":
             if has_ck.get(pl["src"], False):
                 has_ck[pl["tgt"]] = True
@@ -165,6 +210,8 @@ def run_case(spec):
             o.count("decided:resumes")
             n_res += 1
             sig.append(("resume", has_ck.get(t, False)))
+            if value_fn is not None and value_fn(t, 1, None) != value_fn(t, 1, None):
+                o.count("decided:resumes_of_nan_trials")
             if t in ever_ck and not has_ck.get(t, False):
                 if speculative:
                     o.count("resumed_without_checkpoint_after_speculative_removal")
